@@ -4,6 +4,7 @@ import (
 	"bytes"
 	"fmt"
 	"sort"
+	"strconv"
 	"sync"
 	"testing"
 	"time"
@@ -66,7 +67,9 @@ func coldItems() []coldItem {
 			return kt
 		}),
 	}
-	p := func(name, class string, f func() (key.Parameters, error)) { items = append(items, coldItem{name: name, class: class, param: f}) }
+	p := func(name, class string, f func() (key.Parameters, error)) {
+		items = append(items, coldItem{name: name, class: class, param: f})
+	}
 	for _, inst := range []mldsa.Instance{mldsa.MLDSA44, mldsa.MLDSA65, mldsa.MLDSA87} {
 		p(fmt.Sprintf("ML-DSA-%v", inst), "signature", func() (key.Parameters, error) { return mldsa.NewParameters(inst, mldsa.VariantTink) })
 	}
@@ -144,7 +147,7 @@ func (it coldItem) construct(g int) error {
 		return fmt.Errorf("reading the keyset back: %w", err)
 	}
 	_ = h.String()
-	msg, ad := []byte(fmt.Sprintf("message of goroutine %d for %s", g, it.name)), []byte("associated data")
+	msg, ad := []byte("message of goroutine "+strconv.Itoa(g)+" for "+it.name), []byte("associated data") // no fmt here: its sync.Pool would order the goroutines
 	switch it.class {
 	case "aead":
 		a, err := aead.New(h)
